@@ -171,6 +171,7 @@ type fstate struct {
 	change bool
 	depth  int
 	cur    ssa.Instruction
+	curParam int
 }
 
 func (s *fstate) get(v ssa.Value) flabel {
@@ -337,10 +338,16 @@ func siteKey(ins ssa.Instruction) string {
 	if ins == nil {
 		return ""
 	}
-	if ins.Pos().IsValid() {
-		return fmt.Sprintf("%d", ins.Pos())
+	// the enclosing function is part of the identity: every instantiation of a generic function has its own copy of
+	// the instruction at the same source position (and its own blocks, which siteTotals relies on)
+	fn := ""
+	if p := ins.Parent(); p != nil {
+		fn = p.String()
 	}
-	return fmt.Sprintf("%p", ins)
+	if ins.Pos().IsValid() {
+		return fmt.Sprintf("%d@%s", ins.Pos(), fn)
+	}
+	return fmt.Sprintf("%p@%s", ins, fn)
 }
 
 // siteCnt: distinct call paths from a local site to sinks: all of them, and those reached by the wire itself (raw).
@@ -368,6 +375,9 @@ func (s *fstate) sinkCnt(kind string, l flabel, site string, c siteCnt) {
 		s.change = true
 	}
 	if site != "" {
+		if s.cur != nil && s.cur.Block() != nil {
+			siteBlock[site] = s.cur.Block()
+		}
 		m := s.sum.sites[kind]
 		if m == nil {
 			m = map[string]siteCnt{}
@@ -387,19 +397,105 @@ func (s *fstate) sinkCnt(kind string, l flabel, site string, c siteCnt) {
 	}
 }
 
+// siteBlock remembers the basic block of every recorded site (site keys are unique per instruction and parameter).
+var siteBlock = map[string]*ssa.BasicBlock{}
+
+// siteTotals: the number of call paths to sinks of one kind. Sites in mutually exclusive branches are alternatives,
+// not additions: per function the total is the heaviest acyclic path through the CFG (block weight = sum of the
+// counts of its sites, back edges ignored), so merging two duplicated assertions of an if/else into one — or
+// splitting one into two exclusive copies — does not change it; totals of different functions add up.
 func siteTotals(m map[string]siteCnt) siteCnt {
-	var t siteCnt
-	for _, c := range m {
-		t.all += c.all
-		t.raw += c.raw
-		if t.all > siteCntMax {
-			t.all = siteCntMax
+	type bw struct{ all, raw int }
+	perFn := map[*ssa.Function]map[*ssa.BasicBlock]*bw{}
+	var loose siteCnt
+	for site, c := range m {
+		b := siteBlock[site]
+		if b == nil {
+			loose.all += c.all
+			loose.raw += c.raw
+			continue
 		}
-		if t.raw > siteCntMax {
-			t.raw = siteCntMax
+		f := b.Parent()
+		if perFn[f] == nil {
+			perFn[f] = map[*ssa.BasicBlock]*bw{}
 		}
+		w := perFn[f][b]
+		if w == nil {
+			w = &bw{}
+			perFn[f][b] = w
+		}
+		w.all += c.all
+		w.raw += c.raw
+	}
+	t := loose
+	for f, ws := range perFn {
+		bestAll, bestRaw := 0, 0
+		distAll := map[*ssa.BasicBlock]int{}
+		distRaw := map[*ssa.BasicBlock]int{}
+		// blocks in reverse post order: predecessors (except through back edges) come first
+		for _, b := range rpo(f) {
+			da, dr := 0, 0
+			for _, pr := range b.Preds {
+				if b.Dominates(pr) {
+					continue // back edge
+				}
+				if distAll[pr] > da {
+					da = distAll[pr]
+				}
+				if distRaw[pr] > dr {
+					dr = distRaw[pr]
+				}
+			}
+			if w := ws[b]; w != nil {
+				da += w.all
+				dr += w.raw
+			}
+			distAll[b], distRaw[b] = da, dr
+			if da > bestAll {
+				bestAll = da
+			}
+			if dr > bestRaw {
+				bestRaw = dr
+			}
+		}
+		t.all += bestAll
+		t.raw += bestRaw
+	}
+	if t.all > siteCntMax {
+		t.all = siteCntMax
+	}
+	if t.raw > siteCntMax {
+		t.raw = siteCntMax
 	}
 	return t
+}
+
+var rpoMemo = map[*ssa.Function][]*ssa.BasicBlock{}
+
+func rpo(f *ssa.Function) []*ssa.BasicBlock {
+	if r, ok := rpoMemo[f]; ok {
+		return r
+	}
+	seen := map[*ssa.BasicBlock]bool{}
+	var post []*ssa.BasicBlock
+	var dfs func(b *ssa.BasicBlock)
+	dfs = func(b *ssa.BasicBlock) {
+		seen[b] = true
+		for _, s := range b.Succs {
+			if !seen[s] {
+				dfs(s)
+			}
+		}
+		post = append(post, b)
+	}
+	if len(f.Blocks) > 0 {
+		dfs(f.Blocks[0])
+	}
+	for i, j := 0, len(post)-1; i < j; i, j = i+1, j-1 {
+		post[i], post[j] = post[j], post[i]
+	}
+	rpoMemo[f] = post
+	return post
 }
 
 func (s *fstate) applySummary(sum *flowSummary, argLabel flabel, call ssa.Value, args []ssa.Value, nParams int, closure *ssa.MakeClosure) {
@@ -407,7 +503,8 @@ func (s *fstate) applySummary(sum *flowSummary, argLabel flabel, call ssa.Value,
 		s.sinkAt(k, minLabel(argLabel, l), "")
 	}
 	// call-path sensitivity: the call site contributes as many paths as the callee's parameter has
-	ctx := siteKey(s.cur)
+	// one entry per (call site, parameter): the same operand handed over through two parameters takes two paths
+	ctx := fmt.Sprintf("%s#p%d", siteKey(s.cur), s.curParam)
 	for k, m := range sum.sites {
 		t := siteTotals(m)
 		if argLabel != lRaw {
@@ -561,6 +658,7 @@ func (s *fstate) step(ins ssa.Instruction) {
 				continue
 			}
 			sum := s.e.summary(fn, len(fn.Params)+k, s.depth+1)
+			s.curParam = len(fn.Params) + k
 			s.applySummary(sum, l, nil, nil, len(fn.Params), x)
 		}
 	case *ssa.Return:
@@ -660,6 +758,7 @@ func (s *fstate) call(ci ssa.CallInstruction) {
 				continue
 			}
 			sum := s.e.summary(callee, i, s.depth+1)
+			s.curParam = i
 			s.applySummary(sum, l, callVal, args, len(callee.Params), mc)
 		}
 		return
@@ -677,6 +776,7 @@ func (s *fstate) call(ci ssa.CallInstruction) {
 				continue
 			}
 			sum := s.e.summary(callee, i, s.depth+1)
+			s.curParam = i
 			s.applySummary(sum, l, callVal, args, len(callee.Params), nil)
 		}
 	}
